@@ -3,6 +3,8 @@ C05 — SQLAlchemy class / Table / hybrid forms round-trip and agree (necessary 
 
 C05.tables : typ2column_type (folded, incl. the import-time update from another module) and
              column_type2typ are mutually inverse on the property's scalar domain.
+C05.optional : the Column reader wraps a type in Optional depending on `nullable` (and the type) only.
+C05.stale  : no guard reads a key that has been translated away on every path (key typestate).
 C05.vocab  : every Column keyword the emitters can write is folded away by column_call_to_param.
 C05.pk     : every iterable fed to param_to_sqlalchemy_column_calls comes out of
              ensure_has_primary_key ("at least one"); inside it every store that introduces a
@@ -21,6 +23,83 @@ from ..walker import GuardWalker
 DOMAIN = ("int", "float", "str", "bool", "dict")
 EU = "cdd.sqlalchemy.utils.emit_utils."
 PU = "cdd.sqlalchemy.utils.parse_utils."
+
+
+def _optional_rule(ctx, index):
+    """
+    C05.optional. The Column emitter encodes `Optional[T]` only as `nullable=True`; the Column reader must
+    therefore wrap the type in Optional exactly according to `nullable`. Every place column_call_to_param
+    (and its nested helpers) writes `<entry>["typ"] = "Optional[{}]"...` is collected, and the conditions on
+    the way to it — enclosing tests and the operands that short-circuit before a helper call — may mention
+    nothing of the entry but its `nullable` key (and the type being wrapped).
+    """
+    cc2p = index.func(PU + "column_call_to_param")
+    ent = None
+    for n in iter_own(cc2p.node):
+        if isinstance(n, ast.Return) and isinstance(n.value, ast.Tuple) and len(n.value.elts) == 2 and isinstance(n.value.elts[1], ast.Name):
+            ent = n.value.elts[1].id
+    ctx.need(ent is not None, "column_call_to_param no longer returns (name, <entry local>)")
+    nested = [g for g in index.funcs.values() if g.outer is cc2p]
+    wrappers = {}
+    sites = []
+    for g in [cc2p] + nested:
+        for n in iter_own(g.node):
+            if isinstance(n, ast.Assign) and norm(n.targets[0]) == "{}['typ']".format(ent) and "Optional[{" in norm(n.value):
+                sites.append((g, n))
+                if g is not cc2p:
+                    wrappers[g.node.name] = g
+    ctx.need(sites, "the Optional-wrapping store vanished from column_call_to_param")
+
+    def guards(f, node):
+        """conditions evaluated before `node` runs: enclosing If / IfExp tests and earlier BoolOp operands"""
+        out = []
+        par = f.mod.parents
+        child, p = node, par.get(node)
+        while p is not None and p is not f.node:
+            if isinstance(p, ast.If) and (child in p.body or child in p.orelse):
+                out.append(p.test)
+            elif isinstance(p, ast.IfExp) and child is not p.test:
+                out.append(p.test)
+            elif isinstance(p, ast.BoolOp) and child in p.values:
+                out.extend(p.values[: p.values.index(child)])
+            child, p = p, par.get(p)
+        return out
+
+    n_g = 0
+    checked = []
+    for g, n in sites:
+        checked.append((g, n, guards(g, n)))
+    for name, g in wrappers.items():
+        for c in iter_own(cc2p.node):
+            if isinstance(c, ast.Call) and isinstance(c.func, ast.Name) and c.func.id == name:
+                checked.append((cc2p, c, guards(cc2p, c)))
+    for f, node, gs in checked:
+        bad = []
+        for t in gs:
+            n_g += 1
+            for x in ast.walk(t):
+                key = None
+                if isinstance(x, ast.Subscript) and isinstance(x.value, ast.Name) and x.value.id == ent and isinstance(x.slice, ast.Constant):
+                    key = x.slice.value
+                elif isinstance(x, ast.Call) and isinstance(x.func, ast.Attribute) and isinstance(x.func.value, ast.Name) and x.func.value.id == ent and x.func.attr in ("get", "pop") and x.args and isinstance(x.args[0], ast.Constant):
+                    key = x.args[0].value
+                elif isinstance(x, ast.Compare) and len(x.ops) == 1 and isinstance(x.ops[0], (ast.In, ast.NotIn)) and norm(x.comparators[0]) == ent and isinstance(x.left, ast.Constant):
+                    key = x.left.value
+                if key is not None and key not in ("nullable", "typ"):
+                    bad.append(key)
+        ctx.ob(
+            "C05.optional",
+            f,
+            node,
+            not bad,
+            ""
+            if not bad
+            else "whether the parsed type is wrapped in Optional also depends on the entry's {}: the emitter encodes Optional "
+            "only as nullable=True, so e.g. an `Optional[float] = None` column comes back as `float`".format(sorted(set(bad))),
+            line=node.lineno,
+        )
+    ctx.count("optional_wrap_sites_and_calls", len(checked))
+    ctx.count("optional_guard_conditions", n_g)
 
 
 def run(ctx):
@@ -345,4 +424,14 @@ def run(ctx):
                 )
 
     ctx.section(_sec_funnel)
+
+    def _sec_stale():
+        from ..keystate import stale_rule
+
+        fs = [f for f in index.nontest_funcs() if f.mod.name.startswith("cdd.sqlalchemy.")]
+        n_ = stale_rule(ctx, "C05.stale", fs, "the Column keyword handling")
+        ctx.floor("dicts with constant keys in the SQLAlchemy emitters/parsers", n_, 8)
+
+    ctx.section(_sec_stale)
+    ctx.section(_optional_rule, ctx, index)
 
